@@ -15,6 +15,8 @@ use i256_spec::*;
 fn any_i256() -> i256 { i256 { low: kani::any(), high: kani::any() } }
 fn dg(x: i256) -> D4 { digits(x.low, x.high) }
 fn of(d: D4) -> i256 { let (low, high) = parts(d); i256 { low, high } }
+/// the value x, but opaque to CBMC's constant folder (its 128-bit constant division crashed with SIGFPE)
+fn pin(x: i256) -> i256 { let y = any_i256(); kani::assume(y.low == x.low && y.high == x.high); y }
 
 // Contract (C12): from_parts(lo, hi) / to_parts are inverse bijections between i256 and its limb
 // pair; the digit view used by every other unit is consistent with them (digits -> parts -> digits is
@@ -83,10 +85,10 @@ fn i256_i128_conv() {
 
 // Contract (C13): ToPrimitive::to_i64(x) = Some(v) <=> the value of x lies in [i64::MIN, i64::MAX]
 // (digits 1..3 are the sign extension of digit 0), and then v is that value; None otherwise.
-// *** FAILS ON THE UNCHANGED TREE - genuine defect (see REPORT.md, D1): the second range test re-checks
-// `self.high` (the i128 limb) instead of the upper 64 bits of the low limb, so e.g. the value 2^64
-// (low = 1 << 64, high = 0) gives Some(0) and 2^64 + 5 gives Some(5) instead of None (confirmed natively).
-// @unit name=i256_to_i64 props=C13 kind=complete fns=ToPrimitive<i256>::to_i64 tier=thorough was_quick=1 confirmed=0
+// History: this unit found defect D1 (the second range test re-checked `self.high`, the i128 limb, instead
+// of the upper 64 bits of the low limb, so 2^64 gave Some(0) and 2^64 + 5 gave Some(5)); fixed in /repo by
+// commit 5bf357f.  It fails on any tree without that fix (e.g. the pre-fix dev worktree) - by design.
+// @unit name=i256_to_i64 props=C13 kind=complete fns=ToPrimitive<i256>::to_i64
 #[kani::proof]
 fn i256_to_i64() {
     let y = any_i256();
@@ -263,7 +265,7 @@ fn i256_bytes() {
 // and WrappingShl/Shr (count taken mod 256) / CheckedShl/Shr (None <=> count > 255) reduce to the u8
 // form;  leading_zeros / trailing_zeros count the zero bits above the highest / below the lowest set
 // bit (256 for zero).
-// @unit name=i256_bits props=C12 kind=complete fns=Shl<u8>::shl,Shr<u8>::shr,BitAnd<i256>::bitand,BitOr<i256>::bitor,BitXor<i256>::bitxor,Not<i256>::not,i256::leading_zeros,i256::trailing_zeros,WrappingShl<i256>::wrapping_shl,CheckedShl<i256>::checked_shl tier=thorough was_quick=1 confirmed=0
+// @unit name=i256_bits props=C12 kind=complete fns=Shl<u8>::shl,Shr<u8>::shr,BitAnd<i256>::bitand,BitOr<i256>::bitor,BitXor<i256>::bitxor,Not<i256>::not,i256::leading_zeros,i256::trailing_zeros,WrappingShl<i256>::wrapping_shl,CheckedShl<i256>::checked_shl
 #[kani::proof]
 fn i256_bits() {
     let (x, y) = (any_i256(), any_i256());
@@ -303,7 +305,7 @@ fn i256_bits() {
 // Contract (C12), bounded: mulx(a, b) for a, b < 2^64 returns (low, high) = (a*b, 0) with a*b the exact
 // product in u128 (the 128 x 128 -> 256 bit product of arbitrary operands is out of reach for the
 // solver).  Pinned full-width points: mulx(2^127, 2) = (0, 1); mulx(MAX, MAX) = (1, MAX - 1).
-// @unit name=i256_mulx_64 props=C12 kind=bounded bound=operands<2^64 fns=mulx timeout=900 tier=thorough was_quick=1 confirmed=0
+// @unit name=i256_mulx_64 props=C12 kind=bounded bound=operands<2^64 fns=mulx timeout=900
 #[kani::proof]
 fn i256_mulx_64() {
     let (a, b): (u64, u64) = (kani::any(), kani::any());
@@ -314,57 +316,65 @@ fn i256_mulx_64() {
     kani::cover!(lo > u64::MAX as u128);
 }
 
-// Contract (C12), bounded: for operands that are sign extensions of i64 values a, b (|value| < 2^63):
-// checked_mul = Some(a*b) and wrapping_mul = a*b with a*b the exact product in i128 (always
-// representable); num_traits CheckedMul / WrappingMul agree.  Overflow detection pinned on full-width
-// constants: MIN * -1 = None, MAX * 2 = None, 2^128 * 2^127 = None (= 2^255), 2^128 * -(2^127) =
-// Some(MIN), 0 * MIN = Some(0), and wrapping_mul(MIN, -1) = MIN.
-// @unit name=i256_mul_small props=C12 kind=bounded bound=operands_in_i64_range fns=i256::checked_mul,i256::wrapping_mul timeout=900 tier=thorough was_quick=1 confirmed=0
+// Contract (C12), bounded: for operands that are sign extensions of i32 values a, b: checked_mul =
+// Some(a*b) and wrapping_mul = a*b with a*b the exact product in i64 (always representable); num_traits
+// CheckedMul / WrappingMul / SaturatingMul agree (no saturation).  Overflow detection pinned on
+// full-width constants: MIN * -1 = None (saturating MAX), MAX * 2 = None (saturating MAX), MIN * 2 = None
+// (saturating MIN), MAX * -2 = None (saturating MIN), 2^128 * 2^127 = None (= 2^255), 2^128 * -(2^127) =
+// Some(MIN), 0 * MIN = Some(0), wrapping_mul(MIN, -1) = MIN.  (Full-width products: coordinator's Verus unit.)
+// @unit name=i256_mul_small props=C12 kind=bounded bound=operands_in_i32_range_(plus_pinned_full-width_points) fns=i256::checked_mul,i256::wrapping_mul,SaturatingMul<i256>::saturating_mul timeout=1500 tier=thorough was_quick=1 confirmed=0
 #[kani::proof]
 fn i256_mul_small() {
-    let (a, b): (i64, i64) = (kani::any(), kani::any());
+    let (a, b): (i32, i32) = (kani::any(), kani::any());
     let (x, y) = (i256::from_i128(a as i128), i256::from_i128(b as i128));
-    let p = i256::from_i128(a as i128 * b as i128);
+    let p = i256::from_i128((a as i64 * b as i64) as i128);
     assert!(x.checked_mul(y) == Some(p));
     assert!(x.wrapping_mul(y) == p);
-    assert!(CheckedMul::checked_mul(&x, &y) == Some(p) && WrappingMul::wrapping_mul(&x, &y) == p);
+    assert!(CheckedMul::checked_mul(&x, &y) == Some(p) && WrappingMul::wrapping_mul(&x, &y) == p && x.saturating_mul(&y) == p);
     let two128 = i256 { low: 0, high: 1 };
     let two127 = i256 { low: 1 << 127, high: 0 };
+    let (two, m2) = (i256::from_i128(2), i256::from_i128(-2));
     assert!(i256::MIN.checked_mul(i256::MINUS_ONE).is_none() && i256::MIN.wrapping_mul(i256::MINUS_ONE) == i256::MIN);
-    assert!(i256::MAX.checked_mul(i256::from_i128(2)).is_none());
+    assert!(i256::MAX.checked_mul(two).is_none() && i256::MIN.checked_mul(two).is_none() && i256::MAX.checked_mul(m2).is_none());
+    assert!(i256::MIN.saturating_mul(&i256::MINUS_ONE) == i256::MAX && i256::MAX.saturating_mul(&two) == i256::MAX);
+    assert!(i256::MIN.saturating_mul(&two) == i256::MIN && i256::MAX.saturating_mul(&m2) == i256::MIN);
     assert!(two128.checked_mul(two127).is_none());
     assert!(two128.checked_mul(two127.wrapping_neg()) == Some(i256::MIN));
     assert!(i256::ZERO.checked_mul(i256::MIN) == Some(i256::ZERO));
     kani::cover!(a < -1 && b > 1);
-    kani::cover!(a < -1 && b < -1 && (a as i128 * b as i128) > i64::MAX as i128);
+    kani::cover!(a < -1 && b < -1 && (a as i64 * b as i64) > i32::MAX as i64);
 }
 
-// Contract (C12): multiplication by a power of two, FULL-WIDTH first operand: for all x: i256 and
-// k <= 254: wrapping_mul(x, 2^k) = x << k (product mod 2^256), and checked_mul(x, 2^k) = Some(x << k) <=>
-// no significant bit is lost, i.e. (x << k) >> k = x (arithmetic shifts, specified bit-wise in
-// i256_bits), None otherwise.  This exercises the overflow detection of checked_mul on operands with
-// non-zero high limbs.
-// @unit name=i256_mul_pow2 props=C12 kind=complete fns=i256::checked_mul,i256::wrapping_mul timeout=900 tier=thorough was_quick=1 confirmed=0
-#[kani::proof]
-fn i256_mul_pow2() {
+// Contract (C12): multiplication by a power of two 2^K (K concrete per unit), FULL-WIDTH other operand:
+// for all x: i256: wrapping_mul(x, 2^K) = x << K (product mod 2^256), and checked_mul(x, 2^K) = Some(x << K)
+// <=> no significant bit is lost, i.e. (x << K) >> K = x (arithmetic shifts, specified bit-wise in
+// i256_bits), None otherwise; both operand orders.  Exercises the overflow detection of checked_mul on
+// operands with non-zero high limbs.
+fn mul_pow2_case<const K: u8>() {
     let x = any_i256();
-    let k: u8 = kani::any();
-    kani::assume(k <= 254);
-    let p = i256::ONE << k;
-    let shifted = x << k;
-    let exact = (shifted >> k) == x;
-    assert!(x.wrapping_mul(p) == shifted);
-    assert!(p.wrapping_mul(x) == shifted);
+    let p = i256::ONE << K;
+    let shifted = x << K;
+    let exact = (shifted >> K) == x;
+    assert!(x.wrapping_mul(p) == shifted && p.wrapping_mul(x) == shifted);
     match x.checked_mul(p) {
         Some(r) => assert!(exact && r == shifted),
         None => assert!(!exact),
     }
     assert!(p.checked_mul(x) == x.checked_mul(p));
-    kani::cover!(exact && k > 130 && x.is_negative());
-    kani::cover!(exact && k > 3 && k < 100 && x.high > 1);
+    kani::cover!(exact && x.is_negative() && x.low != 0);
+    kani::cover!(exact && !x.is_negative() && x != i256::ZERO);
     kani::cover!(!exact && x.is_negative());
-    kani::cover!(!exact && !x.is_negative() && x.high == 0);
+    kani::cover!(!exact && !x.is_negative());
 }
+// @unit name=i256_mul_pow2_k1 props=C12 kind=bounded bound=multiplier_2^1_(other_operand_full_width) fns=i256::checked_mul,i256::wrapping_mul timeout=1500 tier=thorough was_quick=1 confirmed=0
+#[kani::proof]
+fn i256_mul_pow2_k1() { mul_pow2_case::<1>() }
+// @unit name=i256_mul_pow2_k64 props=C12 kind=bounded bound=multiplier_2^64_(other_operand_full_width) fns=i256::checked_mul,i256::wrapping_mul timeout=1500 tier=thorough was_quick=1 confirmed=0
+#[kani::proof]
+fn i256_mul_pow2_k64() { mul_pow2_case::<64>() }
+// @unit name=i256_mul_pow2_k130 props=C12 kind=bounded bound=multiplier_2^130_(other_operand_full_width) fns=i256::checked_mul,i256::wrapping_mul timeout=1500 tier=thorough was_quick=1 confirmed=0
+#[kani::proof]
+fn i256_mul_pow2_k130() { mul_pow2_case::<130>() }
 
 /// Stub for bigint::div::div_rem_word (x86-64 inline asm): the definition of the `div` instruction,
 /// i.e. the function's own portable cfg(not(target_arch = "x86_64")) body; for hi = 0 the same
@@ -376,35 +386,82 @@ fn div_rem_word_def(hi: u64, lo: u64, divisor: u64) -> (u64, u64) {
     ((x / y) as u64, (x % y) as u64)
 }
 
-// Contract (C12), bounded: for n, d sign extensions of i32 values: div_rem / checked_div / checked_rem:
-// None (Err) <=> d = 0; otherwise Some(q), Some(r) with q*d + r = n, |r| < |d|, r = 0 or sign(r) =
-// sign(n) (truncated division - this pins q and r uniquely), verified by exact i128 arithmetic on the
-// results; wrapping_div / wrapping_rem return the same for d != 0.  Full-width pinned points: MIN / -1:
-// checked None, wrapping_div = MIN, wrapping_rem = 0; MIN / 1 = MIN; MAX / MAX = 1; MIN / MAX = -1 rem -1.
-// Stub: div::div_rem_word -> div_rem_word_def (see above).
-// @unit name=i256_divrem_small props=C12 kind=bounded bound=operands_in_i32_range_(plus_pinned_full-width_points) fns=i256::div_rem,i256::checked_div,i256::checked_rem,i256::wrapping_div,i256::wrapping_rem timeout=900 tier=thorough was_quick=1 confirmed=0
-#[kani::proof]
-#[kani::unwind(6)]
-#[kani::stub(crate::bigint::div::div_rem_word, div_rem_word_def)]
-fn i256_divrem_small() {
-    let (n, d): (i32, i32) = (kani::any(), kani::any());
-    let (x, y) = (i256::from_i128(n as i128), i256::from_i128(d as i128));
-    let (q, r) = (x.checked_div(y), x.checked_rem(y));
-    assert!(q.is_none() == (d == 0) && r.is_none() == (d == 0));
-    if d != 0 {
-        let (q, r) = (q.unwrap(), r.unwrap());
-        let (qv, rv) = (q.to_i128(), r.to_i128());
-        assert!(qv.is_some() && rv.is_some());
-        let (qv, rv, nv, dv) = (qv.unwrap(), rv.unwrap(), n as i128, d as i128);
-        assert!(qv >= -(1 << 31) && qv <= (1 << 31) && rv.abs() < dv.abs());
-        assert!(qv * dv + rv == nv && (rv == 0 || (rv < 0) == (nv < 0)));
-        assert!(x.wrapping_div(y) == q && x.wrapping_rem(y) == r);
-        assert!(CheckedDiv::checked_div(&x, &y) == Some(q) && CheckedRem::checked_rem(&x, &y) == Some(r));
+/// |x| as digits, for x != MIN
+fn abs_digits(x: i256) -> D4 { if is_neg(dg(x)) { sub_spec(ZERO4, dg(x)).0 } else { dg(x) } }
+/// schoolbook q * d + r on digits (d, r: up to four digits), returns (low four digits, overflow beyond four digits)
+fn mul_add_digits(q: D4, d: D4, r: D4) -> (D4, bool) {
+    let mut acc = [0u128; 8];
+    let mut i = 0;
+    while i < 4 {
+        let mut j = 0;
+        while j < 4 {
+            let p = q[i] as u128 * d[j] as u128;
+            acc[i + j] += p & (u64::MAX as u128);
+            acc[i + j + 1] += p >> 64;
+            j += 1;
+        }
+        i += 1;
     }
-    kani::cover!(d != 0 && n < 0 && d > 1 && x.checked_rem(y) != Some(i256::ZERO));
-    kani::cover!(d < -1 && n > 1000);
-    kani::cover!(d == 0);
+    let mut out = [0u64; 4];
+    let mut carry: u128 = 0;
+    let mut k = 0;
+    let mut high_nonzero = false;
+    while k < 8 {
+        let t = acc[k] + carry + if k < 4 { r[k] as u128 } else { 0 };
+        if k < 4 { out[k] = t as u64; } else if t as u64 != 0 { high_nonzero = true; }
+        carry = t >> 64;
+        k += 1;
+    }
+    (out, high_nonzero || carry != 0)
 }
+fn lt_digits(a: D4, b: D4) -> bool {
+    let mut i = 4;
+    while i > 0 { i -= 1; if a[i] != b[i] { return a[i] < b[i]; } }
+    false
+}
+// Contract (C12): division of a FULL-WIDTH symbolic numerator n by a concrete divisor D (grid: one-digit
+// divisors 10, -7 and 10^18 -> div_rem_small; two-digit 10^20 and three-digit 10^40 -> Knuth algorithm D with
+// 3 resp. 2 quotient digits): for every n: i256 (n != MIN when D < 0 is not needed: D != -1):
+// checked_div / checked_rem = Some(q), Some(r) with |q| * |D| + |r| = |n| (schoolbook product on base-2^64
+// digits), |r| < |D|, sign(q) = sign(n) * sign(D) or q = 0, sign(r) = sign(n) or r = 0 - this pins q and r
+// uniquely (truncated division); wrapping_div / wrapping_rem agree.  n = MIN is included (|MIN| = 2^255 as
+// unsigned digits).  Stub: div::div_rem_word -> div_rem_word_def.
+fn div_const_case(dv: i256) {
+    let n = any_i256();
+    let d = pin(dv);
+    let (q, r) = (n.checked_div(d), n.checked_rem(d));
+    assert!(q.is_some() && r.is_some());
+    let (q, r) = (q.unwrap(), r.unwrap());
+    let (qa, ra, na, da) = (abs_digits(q), abs_digits(r), abs_digits(n), abs_digits(d));
+    let (prod, ovf) = mul_add_digits(qa, da, ra);
+    assert!(!ovf && prod == na);
+    assert!(lt_digits(ra, da));
+    assert!(dg(q) == ZERO4 || is_neg(dg(q)) == (is_neg(dg(n)) != is_neg(dg(d))));
+    assert!(dg(r) == ZERO4 || is_neg(dg(r)) == is_neg(dg(n)));
+    assert!(n.wrapping_div(d) == q && n.wrapping_rem(d) == r);
+    kani::cover!(is_neg(dg(n)) && dg(r) != ZERO4 && qa[3] != 0);
+    kani::cover!(!is_neg(dg(n)) && qa[2] != 0 && dg(r) != ZERO4);
+    kani::cover!(dg(n) == MIN4);
+    kani::cover!(dg(q) == ZERO4 && dg(n) != ZERO4);
+}
+macro_rules! div_const_unit {
+    ($name:ident, $d:expr) => {
+        #[kani::proof]
+        #[kani::unwind(10)]
+        #[kani::stub(crate::bigint::div::div_rem_word, div_rem_word_def)]
+        fn $name() { div_const_case($d) }
+    };
+}
+// @unit name=i256_div_by_10 props=C12 kind=bounded bound=divisor=10_(numerator_full_width) fns=i256::div_rem,i256::checked_div,i256::checked_rem,i256::wrapping_div,i256::wrapping_rem,div::div_rem,div::div_rem_small mem=4 timeout=1500 tier=thorough was_quick=1 confirmed=0
+div_const_unit!(i256_div_by_10, i256::from_i128(10));
+// @unit name=i256_div_by_m7 props=C12 kind=bounded bound=divisor=-7_(numerator_full_width) fns=i256::div_rem,i256::checked_div,i256::checked_rem,i256::wrapping_div,i256::wrapping_rem,div::div_rem,div::div_rem_small mem=4 timeout=1500 tier=thorough was_quick=1 confirmed=0
+div_const_unit!(i256_div_by_m7, i256::from_i128(-7));
+// @unit name=i256_div_by_1e18 props=C12 kind=bounded bound=divisor=10^18_(numerator_full_width) fns=i256::div_rem,i256::checked_div,i256::checked_rem,div::div_rem,div::div_rem_small mem=4 timeout=1500 tier=thorough was_quick=1 confirmed=0
+div_const_unit!(i256_div_by_1e18, i256::from_i128(1_000_000_000_000_000_000));
+// @unit name=i256_div_by_1e20 props=C12 kind=bounded bound=divisor=10^20_two_digits_(numerator_full_width) fns=i256::div_rem,i256::checked_div,i256::checked_rem,div::div_rem,div::div_rem_knuth,div::full_mul_u64,div::sub_assign,div::add_assign,div::full_shl,div::full_shr tier=thorough mem=6 timeout=1500 confirmed=0
+div_const_unit!(i256_div_by_1e20, i256::from_i128(100_000_000_000_000_000_000));
+// @unit name=i256_div_by_1e40 props=C12 kind=bounded bound=divisor=10^40_three_digits_(numerator_full_width) fns=i256::div_rem,i256::checked_div,i256::checked_rem,div::div_rem,div::div_rem_knuth,div::full_mul_u64,div::sub_assign,div::add_assign,div::full_shl,div::full_shr tier=thorough mem=6 timeout=1500 confirmed=0
+div_const_unit!(i256_div_by_1e40, i256 { low: 0x6329f1c35ca4bfabb9f5610000000000, high: 0x1d });
 
 // Contract (C12): division, pinned full-width points (concrete operands; exercises the sign handling
 // and the Knuth path on known values): MIN / -1: checked None, wrapping_div = MIN, wrapping_rem = 0;
@@ -419,25 +476,26 @@ fn i256_divrem_small() {
 #[kani::unwind(8)]
 #[kani::stub(crate::bigint::div::div_rem_word, div_rem_word_def)]
 fn i256_div_pinned() {
-    let m1 = i256::MINUS_ONE;
-    assert!(i256::MIN.checked_div(m1).is_none() && i256::MIN.checked_rem(m1).is_none());
-    assert!(i256::MIN.wrapping_div(m1) == i256::MIN && i256::MIN.wrapping_rem(m1) == i256::ZERO);
-    assert!(i256::MAX.checked_div(i256::ZERO).is_none() && i256::MAX.checked_rem(i256::ZERO).is_none());
-    assert!(i256::MIN.checked_div(i256::ONE) == Some(i256::MIN) && i256::MIN.checked_rem(i256::ONE) == Some(i256::ZERO));
-    assert!(i256::MAX.checked_div(i256::MAX) == Some(i256::ONE) && i256::MAX.checked_rem(i256::MAX) == Some(i256::ZERO));
-    assert!(i256::MIN.checked_div(i256::MAX) == Some(m1) && i256::MIN.checked_rem(i256::MAX) == Some(m1));
-    let n = i256 { low: 5, high: 1 << 72 };        // 2^200 + 5
-    let d = i256 { low: 1 << 100, high: 0 };       // 2^100
+    // every operand goes through pin(): concrete for the solver, opaque for CBMC's constant folder
+    let (m1, one, zero, min, max) = (pin(i256::MINUS_ONE), pin(i256::ONE), pin(i256::ZERO), pin(i256::MIN), pin(i256::MAX));
+    assert!(min.checked_div(m1).is_none() && min.checked_rem(m1).is_none());
+    assert!(min.wrapping_div(m1) == i256::MIN && min.wrapping_rem(m1) == i256::ZERO);
+    assert!(max.checked_div(zero).is_none() && max.checked_rem(zero).is_none());
+    assert!(min.checked_div(one) == Some(i256::MIN) && min.checked_rem(one) == Some(i256::ZERO));
+    assert!(max.checked_div(max) == Some(i256::ONE) && max.checked_rem(max) == Some(i256::ZERO));
+    assert!(min.checked_div(max) == Some(i256::MINUS_ONE) && min.checked_rem(max) == Some(i256::MINUS_ONE));
+    let n = pin(i256 { low: 5, high: 1 << 72 });        // 2^200 + 5
+    let d = pin(i256 { low: 1 << 100, high: 0 });       // 2^100
     assert!(n.checked_div(d) == Some(d) && n.checked_rem(d) == Some(i256::from_i128(5)));
     assert!(n.wrapping_neg().checked_div(d) == Some(d.wrapping_neg()) && n.wrapping_neg().checked_rem(d) == Some(i256::from_i128(-5)));
-    let n2 = i256 { low: u128::MAX, high: u64::MAX as i128 }; // 2^192 - 1
-    let d2 = i256 { low: (1 << 64) + 1, high: 0 };            // 2^64 + 1
+    let n2 = pin(i256 { low: u128::MAX, high: u64::MAX as i128 }); // 2^192 - 1
+    let d2 = pin(i256 { low: (1 << 64) + 1, high: 0 });            // 2^64 + 1
     let (q2, r2) = (n2.checked_div(d2).unwrap(), n2.checked_rem(d2).unwrap());
     assert!(q2.wrapping_mul(d2).wrapping_add(r2) == n2 && r2 < d2 && !r2.is_negative());
     // Knuth D "add back" case (3-digit divisor, first quotient estimate one too large):
     // n = (B/2 - 1) B^3 + (B/2) B^2, d = (B/2) B^2 + 1 with B = 2^64: q = B - 2, r = (B/2) B^2 - B + 2
-    let n3 = i256 { low: 0, high: ((1u128 << 63) | (((1u128 << 63) - 1) << 64)) as i128 };
-    let d3 = i256 { low: 1, high: 1 << 63 };
+    let n3 = pin(i256 { low: 0, high: ((1u128 << 63) | (((1u128 << 63) - 1) << 64)) as i128 });
+    let d3 = pin(i256 { low: 1, high: 1 << 63 });
     assert!(n3.checked_div(d3) == Some(i256 { low: u64::MAX as u128 - 1, high: 0 }));
     assert!(n3.checked_rem(d3) == Some(i256 { low: 2 | ((u64::MAX as u128) << 64), high: (1 << 63) - 1 }));
     kani::cover!(q2.high == 0 && q2.low > 1 << 64);
@@ -446,7 +504,7 @@ fn i256_div_pinned() {
 // Contract (C12), bounded: checked_pow / wrapping_pow for bases that are sign extensions of i32 values
 // and each exponent e in {0, 1, 2, 3}: = the exact power in i128 (always representable), exp = 0 gives 1
 // (also 0^0).  Pinned: 2^255 overflows (checked None, wrapping = MIN), 2^254 and (-2)^255 = MIN are Some.
-// @unit name=i256_pow_small props=C12 kind=bounded bound=base_in_i32_range_exp<=3_(base_2:_exp_254,255) fns=i256::checked_pow,i256::wrapping_pow timeout=1500
+// @unit name=i256_pow_small props=C12 kind=bounded bound=base_in_i32_range_exp<=3_(base_2:_exp_254,255) fns=i256::checked_pow,i256::wrapping_pow timeout=1500 tier=thorough was_quick=1 confirmed=0
 #[kani::proof]
 #[kani::unwind(10)]
 fn i256_pow_small() {
@@ -463,21 +521,4 @@ fn i256_pow_small() {
     assert!(two.wrapping_neg().checked_pow(255) == Some(i256::MIN));
     kani::cover!(a < -1000);
     kani::cover!(a == 0);
-}
-
-// Contract (C12): SaturatingMul: saturating_mul(a, b) = the exact product when checked_mul(a, b) is
-// Some (checked_mul is specified by i256_mul_small / i256_mul_pow2 and, unbounded, by the Verus unit),
-// else MAX if the operands have equal signs and MIN if they differ - for all 256-bit a, b.
-// @unit name=i256_saturating_mul props=C12 kind=complete fns=SaturatingMul<i256>::saturating_mul timeout=1500 tier=thorough was_quick=1 confirmed=0
-#[kani::proof]
-fn i256_saturating_mul() {
-    let (a, b) = (any_i256(), any_i256());
-    let s = a.saturating_mul(&b);
-    match a.checked_mul(b) {
-        Some(p) => assert!(s == p),
-        None => assert!(s == if a.is_negative() == b.is_negative() { i256::MAX } else { i256::MIN }),
-    }
-    kani::cover!(a.checked_mul(b).is_none() && a.is_negative() && !b.is_negative());
-    kani::cover!(a.checked_mul(b).is_none() && a.is_negative() && b.is_negative());
-    kani::cover!(a.checked_mul(b).is_some() && a.high != 0 && b.low > 1);
 }
